@@ -18,9 +18,9 @@
 (*   SameScns     the target is a repository of the source registry         *)
 (*   S14Scns      top level alternations of 2-3 of the five pool tags in    *)
 (*   S14Quick     every order, as allow and as deny list; with Anchoring =  *)
-(*                "asis" TLC finds the C18-1 (S14) counterexample           *)
+(*                "asis" (as found) TLC finds the C18-1 (S14) counterexample*)
 (*   BkForceScns  platform + switches on a target that holds the index;     *)
-(*                with PlatMatch = "asis" TLC finds the C18-2 counterexample*)
+(*                with PlatMatch = "asis" (as found): C18-2 counterexample  *)
 (*   SharedBkScns two entries with the same constant backup name: the race  *)
 (*                that makes "backup names of different entries are         *)
 (*                distinct" an assumption of the check (parallel >= 2);     *)
